@@ -430,8 +430,8 @@ func runCrashProp(r *Run, prop, stratum string) *Violation {
 	}
 	if hasWord(stratum, "idle") {
 		// idle-heavy: long tickers are pointless, short ones fire before the first item
-		cfg.Keepalive = tickerChoices[g.Choose("idle_ka", 4)]
-		cfg.CpTicker = tickerChoices[g.Choose("idle_cp", 4)]
+		cfg.Keepalive = tickerChoices[g.Choose("idle_ka", 4)] + 137*time.Microsecond
+		cfg.CpTicker = tickerChoices[g.Choose("idle_cp", 4)] + 271*time.Microsecond
 	}
 	enum := hasWord(stratum, "enum")
 	if enum {
